@@ -31,6 +31,46 @@ def _run(cmd, timeout, cwd, log):
     return rc, out, err, dt
 
 
+def _race(cmd, timeout, cwd, log):
+    """Portfolio: the same query on MiniSat (CBMC's default) and CaDiCaL; the first back end to answer wins.
+    (Measured: PPI ctor 7 s on CaDiCaL vs > 300 s on MiniSat; DNS::compose_name 77 s on MiniSat vs > 300 s on CaDiCaL.)"""
+    import tempfile
+    t0 = time.time()
+    procs = []
+    for extra in ([], ['--sat-solver', 'cadical']):
+        fo = tempfile.TemporaryFile(mode='w+')
+        fe = tempfile.TemporaryFile(mode='w+')
+        p_ = subprocess.Popen(cmd + extra, cwd=cwd, stdout=fo, stderr=fe, preexec_fn=_limits)
+        procs.append((p_, fo, fe, 'cadical' if extra else 'minisat'))
+    winner = None
+    while time.time() - t0 < timeout:
+        for p_, fo, fe, nm in procs:
+            rc = p_.poll()
+            if rc is not None and rc in (0, 10):
+                winner = (p_, fo, fe, nm)
+                break
+        if winner:
+            break
+        if all(p_.poll() is not None for p_, _, _, _ in procs):
+            winner = procs[0]
+            break
+        time.sleep(0.05)
+    for p_, fo, fe, nm in procs:
+        if p_.poll() is None:
+            p_.kill()
+            p_.wait()
+    dt = time.time() - t0
+    if winner is None:
+        log.append({'cmd': ' '.join(cmd) + ' [minisat|cadical]', 'rc': -9, 'seconds': round(dt, 2)})
+        return -9, '', 'TIMEOUT after %ds' % timeout, dt
+    p_, fo, fe, nm = winner
+    fo.seek(0)
+    fe.seek(0)
+    out, err = fo.read(), fe.read()
+    log.append({'cmd': ' '.join(cmd) + ' [won by %s]' % nm, 'rc': p_.returncode, 'seconds': round(dt, 2)})
+    return p_.returncode, out, err, dt
+
+
 def obligation_class(prop_id, desc):
     p = prop_id
     if desc.startswith('REACH:'):
@@ -81,7 +121,7 @@ class UnitResult:
 def checks_flags(u):
     flags = ['--bounds-check', '--pointer-check', '--div-by-zero-check', '--signed-overflow-check',
              '--undefined-shift-check', '--pointer-primitive-check', '--no-malloc-may-fail',
-             '--pointer-overflow-check', '--sat-solver', 'cadical']
+             '--pointer-overflow-check']
     extra = u.get('cbmc', '').split()
     if '--minisat' in extra:           # a unit may ask for the default MiniSat back end
         extra.remove('--minisat')
@@ -190,7 +230,7 @@ def run_unit(path, scratch, mutate=None, extra_name=''):
                 cmd_ += ['--object-bits', str(ob)]
             for n_ in names:
                 cmd_ += ['--property', n_]
-            rc_, out_, err_, dt_ = _run(cmd_, timeout, workdir, res.cmds)
+            rc_, out_, err_, dt_ = (_run if u.get('pipeline', 'dfcc') == 'plain' or '--sat-solver' in cmd_ or '--cvc5' in cmd_ or '--z3' in cmd_ else _race)(cmd_, timeout, workdir, res.cmds)
             if 'too many addressed objects' in out_ and (ob or 8) < 12:
                 ob = (ob or 8) + 1      # default is 8; raise only when CBMC asks for it (cost grows steeply with it)
                 continue
@@ -254,7 +294,7 @@ def run_unit(path, scratch, mutate=None, extra_name=''):
         cmd2 = list(cmd)
         for r in unk:
             cmd2 += ['--property', r['property']]
-        rc2, out2, err2, dt2 = _run(cmd2, timeout, workdir, res.cmds)
+        rc2, out2, err2, dt2 = (_run if u.get('pipeline', 'dfcc') == 'plain' else _race)(cmd2, timeout, workdir, res.cmds)
         res.solver_seconds += dt2
         if rc2 == -9:
             res.reason = 'cbmc timeout after %ds (follow-up run for UNKNOWN properties)' % timeout
@@ -277,6 +317,8 @@ def run_unit(path, scratch, mutate=None, extra_name=''):
         desc = r.get('description', '')
         loc = r.get('sourceLocation', {})
         cls = obligation_class(pid, desc)
+        if u.get('advisory') and re.search(u.get('advisory'), desc):
+            cls = 'advisory'      # waived for this unit with a stated reason (#! advisory-reason)
         line = int(loc.get('line', 0) or 0)
         text = ''
         if loc.get('file', '').endswith('unit.c') and 0 < line <= len(clines):
